@@ -109,7 +109,7 @@ def run_property(prop, tier, rules_for, meta):
     ctx = Context(prop, tier)
     seed = int(os.environ.get('VERIF_SEED', '0') or 0)
     # development runs against a scratch copy (M4LINT_REPO) must never overwrite the real evidence
-    evdir = 'evidence' if not os.environ.get('M4LINT_REPO') else os.path.join('.cache', 'evidence_scratch')
+    evdir = 'evidence' if not (os.environ.get('M4LINT_REPO') or os.environ.get('M4LINT_SCRATCH_EVIDENCE')) else os.path.join('.cache', 'evidence_scratch')
     evidence_path = os.path.join(VERIF, evdir, prop + '.json')
     os.makedirs(os.path.dirname(evidence_path), exist_ok=True)
     os.makedirs(os.path.join(VERIF, 'reports'), exist_ok=True)
